@@ -30,3 +30,18 @@ print('| change | what it does (first line of the author\'s note) | caught by (q
 print('|---|---|---|---|')
 for r in rows:
     print('| %s | %s | %s | %s |' % tuple(x.replace('|', '\\|') for x in r))
+# ---- when called with --design: replace the region between the markers in DESIGN.md
+import sys as _sys
+if '--design' in _sys.argv:
+    lines = ['| change | what it does (first line of the author\'s note) | caught by (quick tier) | first violation reported |', '|---|---|---|---|']
+    for r in rows:
+        lines.append('| %s | %s | %s | %s |' % tuple(x.replace('|', '\\|') for x in r))
+    applicable = [r for r in rows if r[2] not in ('—', 'not run')]
+    own = [r for r in applicable if r[0].split('-')[0] in r[2].split(';')[0]]
+    lines.append('')
+    lines.append('%d of %d applicable changes are caught by the quick tier of their own property\'s check (`seeded/<id>/result.json` holds exit codes, times and the first violation line; `VERIF_SEED=1`); m1/m2 = round 1, m3/m4 = round 2.' % (len(own), len(applicable)))
+    p = V + '/DESIGN.md'
+    s = open(p).read()
+    a = s.index('<!-- SEED_TABLE_BEGIN -->') + len('<!-- SEED_TABLE_BEGIN -->\n')
+    b = s.index('<!-- SEED_TABLE_END -->')
+    open(p, 'w').write(s[:a] + '\n'.join(lines) + '\n' + s[b:])
